@@ -352,10 +352,36 @@ func checkC10(c *Ctx, r *Report) {
 			}
 		}
 		r.Check(good && n > 0, name+"|returned code", exch.Pos(), "code = messageLayer.CompletionCode read after the exchange", "SendCommand returns a completion code that is not the decoded message layer's: "+why)
+		// … on every path on which the exchange succeeded, whatever happens afterwards (a
+		// response body that does not decode is reported together with the code, not instead of it)
+		okAll, nAll := true, 0
+		posAll := exch.Pos()
+		completeAll := enumPaths(sc, 1, 100000, func(p CPath) {
+			ret, isRet := p.Last().(*ssa.Return)
+			if !isRet || ret.Parent() != sc || len(ret.Results) != 2 {
+				return
+			}
+			if p.nilFound(exch) != 0 {
+				return // the exchange failed (or its result was never tested): no code to report
+			}
+			nAll++
+			v := p.Resolve(ret.Results[0])
+			ld, isLd := v.(*ssa.UnOp)
+			if !isLd || ld.Op != token.MUL || !strings.HasSuffix(p.AP(ld.X).SelString(), fMsg+".CompletionCode") {
+				okAll, posAll = false, ret.Pos()
+			}
+		})
+		if completeAll && nAll > 0 {
+			r.Check(okAll, name+"|code on every path after the exchange", posAll, "every return after a successful exchange carries the decoded completion code", "a path on which the exchange succeeded returns something else than the decoded completion code (a response body that fails to decode must not hide the code the BMC sent)")
+		}
 	}
 
 	// (e) typestate
 	checkFreshLayers(c, r, "fresh-layers")
+
+	// retried "until the context expires": the caller's own, on every retry loop (rule shared
+	// with C13)
+	checkRetryBoundedByContext(c, r)
 
 	// retrying ends with "the first valid response": a reply is one only if it answers the
 	// caller's command (rule shared with C11)
